@@ -714,8 +714,11 @@ def c04(tier, seed):
     g, cs = gen_scenarios("C04", "Gen_Curve", env={"FAM": "cstroke", "NOPS": 4, "NVAR": 1, "SALT": seed}, simulate=1500 if th else 120,
                           depth=12, seed=seed + 3, workers=1)
     v.add_tlc(g)
+    # non-lattice geometry: arbitrary control points, arcs, rotations by arbitrary angles, uniform scales and mirrors, widths
+    # 0.6-9, three caps; the harness quantises the true outline to 1/1024 px (abstraction function) for the same tube oracle
+    cs += drive("C04", "stroke-float", seed, 1500 if th else 60)
     simple_validate("C04", v, cs, "curved", "Trace_StrokeCurve", sigfn=stroke_sig, timeout=3000)
-    v.samples = [scs[0], scs[-1], cs[0]]
+    v.samples = [scs[0], scs[-1], cs[0], cs[-1]]
     return v.finish()
 
 
@@ -763,6 +766,8 @@ def c08(tier, seed):
     v.rule = ("Gen_Curve: paths of up to NOPS ops mixing MoveTo/LineTo/QuadTo/CubicTo/Close with control points from an 8-point "
               "half-pixel menu (loops, cusps, off-surface points; curve as first op, after MoveTo, directly after Close), both winding rules, "
               "fill and clip route, 8 dyadic transforms (translations, scale 2 and 1/2, rotation, mirror); sampled by TLC simulation, "
+              "plus random paths with arbitrary decimal control points, arcs (PathBuilder::arc) and arbitrary well-conditioned affine transforms "
+              "whose true outline the harness quantises to 1/1024 px; "
               "two-op paths exhaustively; non-trivial = some pixel must be painted")
     v.trusted = ["harness render (harness/src/strokefam.rs)", "Curve.tla: exact de Casteljau at t=i/16 with the second-difference deviation bound added to the margin"]
     scs = []
@@ -775,6 +780,9 @@ def c08(tier, seed):
     v.add_tlc(g)
     scs += s2
     scs += drive("C08", "curve", seed, 1500 if th else 150)
+    # non-lattice geometry: arbitrary control points, arcs, arbitrary invertible transforms (rotation by any angle, anisotropic
+    # scale, shear, mirror); the harness quantises the true outline to 1/1024 px (abstraction function) for ClassifyFill
+    scs += drive("C08", "curve-float", seed, 600 if th else 40)
     v.exhaustive = False
     simple_validate("C08", v, scs, "all", "Trace_Curve", sigfn=lambda sc, tup: {"fam": "curve", "kind": sc.get("kind")}, timeout=3000)
     v.samples = [scs[0], scs[-1]]
